@@ -9,6 +9,7 @@ mod c11;
 mod c12;
 mod c14;
 mod c15;
+mod c17;
 mod gen;
 mod hx;
 mod oracle;
@@ -46,6 +47,7 @@ fn main() {
         "C12" => c12::run(),
         "C14" => c14::run(),
         "C15" => c15::run(),
+        "C17" => c17::run(),
         p => {
             eprintln!("explore: no E1 check for {}", p);
             std::process::exit(2);
